@@ -87,7 +87,10 @@ def classify_failure(pvl, reader, doc, seps, plain, outcome):
              {"plain_text": text_plain[:800]})]
 
 
-def case(rec, pvl, reader, key):
+_LONG_LIVED = {}
+
+
+def case(rec, pvl, reader, key, reuse=False):
     rng = random.Random(key)
     doc = gt.gen_document(rng, reader)
     seps = gt.gen_layout(rng, doc.tokens, reader, "wild")
@@ -101,7 +104,19 @@ def case(rec, pvl, reader, key):
             rec.count(f"preceded_by_other_configuration[{how}]")
         except common.CaseTimeout:
             pass
-    st, res = load(pvl, reader, text)
+    parser = None
+    if reuse:
+        # one parser object per reader for the life of this worker; it is also
+        # fed the same text cut off at a random place (a failure part-way
+        # through a statement, a nested value, a block) before the judged load
+        from ..gen_values import strict_parser
+        if reader not in _LONG_LIVED:
+            _LONG_LIVED[reader] = strict_parser(pvl, reader)
+        parser = _LONG_LIVED[reader]
+        rec.count("loads_through_a_long_lived_parser")
+        if rng.random() < 0.5 and len(text) > 3:
+            load(pvl, reader, text[:rng.randrange(1, len(text))], parser=parser)
+    st, res = load(pvl, reader, text, parser=parser)
     for cls, ctx in doc.meta:
         rec.count(f"matrix[{reader}][{cls}][{ctx}]")
     rec.case((reader, key), True,
@@ -125,7 +140,11 @@ def case(rec, pvl, reader, key):
     for kind, feats, extra in classify_failure(
             pvl, reader, doc, seps, gt.plain_layout(doc.tokens), outcome):
         wit = {"reader": reader, "seed": key, "text": text[:1500],
-               "preceded_by_load_with": how}
+               "preceded_by_load_with": how, "long_lived_parser": reuse}
+        if reuse:
+            st0, res0 = load(pvl, reader, text)
+            if st0 == "ok" and gt.same_tree(doc.tree, res0) is None:
+                feats = dict(feats, only_with_long_lived_parser=True)
         wit.update(extra)
         if how is not None:
             # does the text load correctly in a process that never saw the
@@ -140,7 +159,8 @@ def shard(i, n, tier, seed, rec, hb):
     for reader in common.rotated(gt.READERS, i):
         for j in range(i, per, n):
             hb.beat()
-            case(rec, pvl, reader, f"C03-{seed}-{reader}-{j}")
+            # every fourth worker keeps one parser object per reader
+            case(rec, pvl, reader, f"C03-{seed}-{reader}-{j}", reuse=(i % 4 == 2))
 
 
 def finish_kwargs(rec, tier):
@@ -150,7 +170,8 @@ def finish_kwargs(rec, tier):
         reader, cls, ctx = k[len("matrix["):-1].split("][")
         matrix.setdefault(reader, {}).setdefault(cls, {})[ctx] = v
     req = [f"agree[{r}]" for r in gt.READERS]
-    req += ["preceded_by_other_configuration[decimal]",
+    req += ["loads_through_a_long_lived_parser",
+            "preceded_by_other_configuration[decimal]",
             "preceded_by_other_configuration[other-dialect]"]
     return dict(extra_cov={"matrix_cells_hit": len(cells), "matrix": matrix},
                 required_counters=req,
